@@ -15,19 +15,19 @@ plan('C16',
           'array path; stratum B (modes *_hostorder_arrays) puts at least one on it in every sequence',
      jobs=[
          # stratum A: must be completely clean
-         Job(H, 'buffer', 'plain', quick=40000, thorough=800000, shards=(6, 16)),
-         Job(H, 'buffer', 'asan', quick=12000, thorough=200000, shards=(6, 16)),
-         Job(H, 'file', 'plain', quick=8000, thorough=160000, shards=(4, 16)),
-         Job(H, 'file', 'asan', quick=4000, thorough=60000, shards=(4, 16)),
-         Job(H, 'socket', 'plain', quick=5000, thorough=100000, shards=(6, 16)),
-         Job(H, 'socket', 'asan', quick=2500, thorough=40000, shards=(6, 16)),
+         Job(H, 'buffer', 'plain', quick=300000, thorough=4000000, shards=(8, 16)),
+         Job(H, 'buffer', 'asan', quick=60000, thorough=600000, shards=(8, 16)),
+         Job(H, 'file', 'plain', quick=50000, thorough=600000, shards=(6, 16)),
+         Job(H, 'file', 'asan', quick=20000, thorough=200000, shards=(6, 16)),
+         Job(H, 'socket', 'plain', quick=30000, thorough=300000, shards=(8, 16)),
+         Job(H, 'socket', 'asan', quick=12000, thorough=120000, shards=(8, 16)),
          # stratum B: arrays of multi-byte elements written in host byte order (the Array<T> fast path)
-         Job(H, 'buffer_hostorder_arrays', 'plain', quick=6000, thorough=120000, shards=(2, 8)),
-         Job(H, 'buffer_hostorder_arrays', 'asan', quick=3000, thorough=40000, shards=(2, 8)),
-         Job(H, 'file_hostorder_arrays', 'plain', quick=2000, thorough=30000, shards=(2, 8)),
-         Job(H, 'file_hostorder_arrays', 'asan', quick=1000, thorough=12000, shards=(2, 8)),
-         Job(H, 'socket_hostorder_arrays', 'plain', quick=1500, thorough=20000, shards=(2, 8)),
-         Job(H, 'socket_hostorder_arrays', 'asan', quick=800, thorough=10000, shards=(2, 8)),
+         Job(H, 'buffer_hostorder_arrays', 'plain', quick=30000, thorough=300000, shards=(2, 8)),
+         Job(H, 'buffer_hostorder_arrays', 'asan', quick=10000, thorough=100000, shards=(2, 8)),
+         Job(H, 'file_hostorder_arrays', 'plain', quick=8000, thorough=80000, shards=(2, 8)),
+         Job(H, 'file_hostorder_arrays', 'asan', quick=4000, thorough=30000, shards=(2, 8)),
+         Job(H, 'socket_hostorder_arrays', 'plain', quick=6000, thorough=50000, shards=(2, 8)),
+         Job(H, 'socket_hostorder_arrays', 'asan', quick=3000, thorough=25000, shards=(2, 8)),
      ],
      assumptions=COMMON_ASSUME + [
          'host is x86-64 (little endian): NATIVE and LITTLE take the not-swapped paths, BIG the swapped ones; the host order is measured at run time by the harness, independently of ASL_BIGENDIAN',
